@@ -137,8 +137,8 @@ def module_uid_refused(sym, n):
     sym.check("no-stream-refused", raised)
 
 
-UIDS = ["mod:stream", "ruby:2.5:20180123:c0ffee", "dir/perl:5.26:1", "nostream"]
-UID_CANON = ["mod:stream", "ruby:2.5:20180123:c0ffee", "perl:5.26:1", None]
+UIDS = ["mod:stream", "ruby:2.5:20180123:c0ffee", "dir/perl:5.26:1", "nostream", "modules/ruby:2.5:20180123:c0ffee"]
+UID_CANON = ["mod:stream", "ruby:2.5:20180123:c0ffee", "perl:5.26:1", None, "ruby:2.5:20180123:c0ffee"]
 
 
 def modules_step(sym, pre, uid_i, variant, arch, rpms_kind):
@@ -334,6 +334,11 @@ def jobs(tier, seed):
                     continue
                 out.append({"harness": "modules_step", "params": {"pre": pre, "uid_i": ui, "variant": ["Server", "", "Client"][(pre + ui) % 3],
                                                                  "arch": ["x86_64", "src", "bogus", "noarch"][(ui + len(rk)) % 4], "rpms_kind": rk}})
+    # a further add to an entry that exists already (same variant, arch and canonical UID; also spelled with a directory prefix)
+    for pre in (1, 2):
+        for ui in (1, 4):
+            for rk in ("list", "tuple"):
+                out.append({"harness": "modules_step", "params": {"pre": pre, "uid_i": ui, "variant": "Server", "arch": "x86_64", "rpms_kind": rk}})
     for pre in (0, 1, 2):
         for ck in ("dict", "empty", "list", "none"):
             out.append({"harness": "extra_step", "params": {"pre": pre, "variant": ["Server", "Client", ""][(pre + len(ck)) % 3],
